@@ -582,6 +582,8 @@ func (p *Policy) AllowElementsMatching(regex *regexp.Regexp) *Policy {
 // AllowURLSchemesMatching will append URL schemes to the allowlist if they
 // match a regexp.
 func (p *Policy) AllowURLSchemesMatching(r *regexp.Regexp) *Policy {
+	p.init()
+
 	p.allowURLSchemeRegexps = append(p.allowURLSchemeRegexps, r)
 	return p
 }
